@@ -14,6 +14,34 @@ from vlib import (Check, MachineryError, coq_eval_cases, coq_string, coqc, ensur
 CFG = [dict(opts={}, mode='build', prems='orig')]
 
 
+def general_candidates(rule, modal):
+    "Small first-order (and modal) arguments around a quantifier / modal rule's principal shape."
+    m_, x = ['c', 0, 0], ['v', 0, 0]
+    Fm, Fx = ['P', 0, 0, [m_]], ['P', 0, 0, [x]]
+    neg = lambda s_: ['U', 'Negation', s_]
+    if rule.get('quantifier'):
+        phi = ['Q', rule['quantifier'], 0, Fx]
+    else:
+        phi = ['M', rule['operator'], Fm]
+    if rule['negated']:
+        phi = neg(phi)
+    others = [Fm, neg(Fm), ['Q', 'Existential', 0, Fx], ['Q', 'Universal', 0, Fx], neg(['Q', 'Existential', 0, Fx]),
+              neg(['Q', 'Universal', 0, Fx]), ['A', 0, 0]]
+    if modal:
+        for o in ('Possibility', 'Necessity'):
+            others += [['M', o, Fm], neg(['M', o, Fm]), ['M', o, ['M', o, Fm]], neg(['M', o, ['M', o, Fm]]),
+                       ['M', o, ['Q', 'Existential', 0, Fx]], neg(['M', o, ['Q', 'Universal', 0, Fx]])]
+    out = []
+    for o in others:
+        if rule['designation'] is not False:
+            out.append(([phi], o))
+            out.append(([phi, neg(o)], ['A', 1, 0]))
+        else:
+            out.append(([o], phi))
+            out.append(([], ['B', 'Disjunction', phi, o]))
+    return out
+
+
 def run(args) -> int:
     chk = Check('C11', args.tier, args.seed)
     ensure_theory()
@@ -81,6 +109,11 @@ def run(args) -> int:
         for _ in range(n_rand):
             prems, concl = c01.rand_arg(rng, Lb['modal'], Lb['quantified'])      # the weaker logic's vocabulary
             args_.append(dict(premises=prems, conclusion=concl))
+        if Lb['modal'] and La['modal']:
+            # nested modalities where an outer world already carries the inner operand (valid in every normal modal logic
+            # whose designated contradictions close; decided by the weaker logic's own verdict)
+            for a_ in ('b:a:MKMaLNa', 'MKcMAab:a:MKcMa', 'MMa:MMKab', 'b:a:MMKaLNMa', 'MAab:a:Ma'):
+                args_.append(dict(argstr=a_))
         if Lb['quantified'] and La['quantified']:
             Fa = ['P', 0, 0, [['c', 0, 0]]]
             Fx = ['P', 0, 0, [['v', 0, 0]]]
@@ -95,14 +128,19 @@ def run(args) -> int:
     known_open = {k for (pid_, k), f in chk.known.items() if pid_ == 'C11' and f.get('status') == 'open'}
     rule_by = {(n, it['name']): it for n in rules for it in rules[n]['rules']}
     targeted = {}
+    uncovered = []
     for a, b in pairs:
         if f'extension:{a}>{b}:validity-lost' in known_open:
             continue
         for rn in info[b]['bad_rules']:
             rule = rule_by.get((b, rn))
-            if not rule or rule.get('kind') != 'op':
+            if not rule:
                 continue
-            cands = c03.candidate_args(rule)
+            uncovered.append((a, b, rn))
+            if rule.get('kind') == 'op':
+                cands = c03.candidate_args(rule)
+            else:
+                cands = general_candidates(rule, byname[a]['modal'] and byname[b]['modal'])
             rng.shuffle(cands)
             for prems, concl in cands[:(80 if args.tier == 'quick' else 400)]:
                 gid = len(jobs)
@@ -136,6 +174,15 @@ def run(args) -> int:
                           f"{wk['argstr']} is valid in {b} but refuted by a limit-free open branch in its declared extension {a}",
                           dict(kind='extension', pair=[a, b], argument=wk['argstr'], verdicts=[wk['cls'], st['cls']],
                                job={k: v for k, v in wk['job'].items() if k != 'configs'}))
+    # base-logic rules outside the soundness theorem for which the search found no lost validity: the theorem still
+    # does not cover what they prove
+    lost = {f['key'] for f in chk.findings}
+    for a, b, rn in uncovered:
+        if f'extension:{a}>{b}:validity-lost' not in lost:
+            chk.violation(f'extension:{a}>{b}:base-rule-outside-theorem:{rn}',
+                          f'{b} (which {a} is declared to extend) applies the rule {rn} whose soundness obligation is refuted or which no longer '
+                          f'fits the rule language: C11_general does not cover what {b} proves through it',
+                          dict(kind='pair_obligation', pair=[a, b], rule=rn, obligation=f'fsound_ok covers {rn}'), found_input=False)
     chk.notes['declared_pairs'] = len(pairs)
     chk.notes['pairs_with_theorem'] = len(good_pairs)
     chk.assumptions = props_assumptions('C11')
